@@ -236,7 +236,7 @@ func (v *Muxer) handle(c net.Conn) {
 
 	// if checkAuth func is exist and username/password is set
 	// then verify user access
-	if l.mux.checkAuth != nil && l.username != "" {
+	if l.mux.checkAuth != nil && (l.username != "" || l.password != "") {
 		ok, err := l.mux.checkAuth(c, l.username, l.password, reqInfoMap)
 		if !ok || err != nil {
 			xl.Debugf("auth failed for user: %s", l.username)
